@@ -436,7 +436,7 @@ type exprPrinter struct {
 // in cff.Flow changed the order in which user provided expressions were
 // invoked (GO-1098).
 func (p *exprPrinter) printExpr(e ast.Expr) string {
-	if ident, ok := e.(*ast.Ident); ok && ident.Name == "nil" {
+	if ident, ok := astutil.Unparen(e).(*ast.Ident); ok && ident.Name == "nil" {
 		// In the generated code, we cannot do the following,
 		// because nil is untyped by default.
 		//
